@@ -127,6 +127,8 @@ impl IndexRead {
                 entries
                     .into_iter()
                     .filter(|entry| entry.is_file())
+                    // An interrupted write can leave an empty file, which holds no hunk.
+                    .filter(|entry| entry.len != Some(0))
                     .filter_map(|entry| entry.name.parse::<u32>().ok())
                     .sorted(),
             )
@@ -152,6 +154,9 @@ impl IndexRead {
             hunks: hunks.into_iter(),
             index: self,
             after: None,
+            next_hunk_number: 0,
+            expected_hunk_count: None,
+            errors: Vec::new(),
         })
     }
 }
@@ -164,6 +169,13 @@ pub struct IndexHunkIter {
     pub index: IndexRead,
     /// If set, yield only entries ordered after this apath.
     after: Option<Apath>,
+    /// The number the next hunk should have, if none are missing.
+    next_hunk_number: u32,
+    /// How many hunks the band's tail says there are, if known.
+    expected_hunk_count: Option<u64>,
+    /// Problems found so far: hunks that are missing or can't be read. The entries of such
+    /// hunks are not yielded, so whoever consumes the iterator should report these.
+    errors: Vec<Error>,
 }
 
 impl IndexHunkIter {
@@ -172,11 +184,33 @@ impl IndexHunkIter {
 
     pub async fn next(&mut self) -> Option<Vec<IndexEntry>> {
         loop {
-            let hunk_number = self.hunks.next()?;
+            let Some(hunk_number) = self.hunks.next() else {
+                if let Some(expected) = self.expected_hunk_count.take() {
+                    if u64::from(self.next_hunk_number) < expected {
+                        self.errors.push(Error::InvalidMetadata {
+                            details: format!(
+                                "Index should have {expected} hunks but ends after {}",
+                                self.next_hunk_number
+                            ),
+                        });
+                    }
+                }
+                return None;
+            };
+            if hunk_number > self.next_hunk_number {
+                self.errors.push(Error::InvalidMetadata {
+                    details: format!(
+                        "Index hunks {}..{hunk_number} are missing",
+                        self.next_hunk_number
+                    ),
+                });
+            }
+            self.next_hunk_number = hunk_number + 1;
             let entries = match self.index.read_hunk(hunk_number).await {
                 Ok(None) => return None,
                 Ok(Some(entries)) => entries,
-                Err(_err) => {
+                Err(err) => {
+                    self.errors.push(err);
                     continue;
                 }
             };
@@ -227,6 +261,21 @@ impl IndexHunkIter {
             entries.extend(hunk);
         }
         Ok(entries)
+    }
+
+    /// Take the errors found since the last call: hunks that were missing or unreadable and
+    /// whose entries were therefore skipped.
+    pub fn take_errors(&mut self) -> Vec<Error> {
+        std::mem::take(&mut self.errors)
+    }
+
+    /// Say how many hunks the index should contain, so that missing trailing hunks are noticed.
+    #[must_use]
+    pub fn expect_hunk_count(self, expected_hunk_count: Option<u64>) -> Self {
+        IndexHunkIter {
+            expected_hunk_count,
+            ..self
+        }
     }
 
     /// Advance self so that it returns only entries with apaths ordered after `apath`.
